@@ -19,7 +19,11 @@ func has19(s, sub string) bool {
 // H_rendererr: entry template a.t (file f0.soy, L body lines) whose k-th body line (chosen
 // symbolically) holds the failing command: at depth 0 an undefined print, at depth 1/2 a call into
 // f1.soy whose (transitively) called template fails.
-func H_rendererr(depth, L int) {
+func H_rendererr(depth, L int, sameNS bool) {
+	ns := "b"
+	if sameNS {
+		ns = "a"
+	}
 	k := verifChoose(L)
 	src := "{namespace a}\n/** @param? x */\n{template .t}\n"
 	failLine := 0
@@ -30,14 +34,14 @@ func H_rendererr(depth, L int) {
 			case 0:
 				src += "  t{$x.nope.deeper}\n"
 			default:
-				src += "  t{call b.d" + strconv.Itoa(depth) + " /}\n"
+				src += "  t{call " + ns + ".d" + strconv.Itoa(depth) + " /}\n"
 			}
 		} else {
 			src += "  ok{$x}\n"
 		}
 	}
 	src += "{/template}\n"
-	other := "{namespace b}\n\n\n\n\n\n\n\n\n\n\n\n/** */\n{template .d1}\n{$nope.x}\n{/template}\n/** */\n{template .d2}\n\n{call .d1 /}\n{/template}\n"
+	other := "{namespace " + ns + "}\n\n\n\n\n\n\n\n\n\n\n\n/** */\n{template .d1}\n{$nope.x}\n{/template}\n/** */\n{template .d2}\n\n{call .d1 /}\n{/template}\n"
 	tofu, cerr := verifCompileNoCheck(src, other)
 	verifAssert(cerr == nil, "harness: bundle does not compile")
 	_, err := verifRender(tofu, "a.t", data.Map{"x": data.Null{}})
